@@ -752,7 +752,7 @@ void initApi() {
 
 namespace pbt {
 const PropDef kProps[] = {
-    {"C09", propC09, true, 120000, initApi},
+    {"C09", propC09, true, 60000, initApi, nullptr, true},
     {nullptr, nullptr, false, 0, nullptr},
 };
 }
